@@ -95,7 +95,7 @@ def add_witness(res, path, describe, vc="witness", site=None, limit=2):
         return
     from . import core
     s = path.solver
-    if s.check() != core.z3.sat:
+    if core.guarded_check(s, 30) != core.z3.sat:
         return
     try:
         res["witnesses"].append({"vc": vc, "site": site, "shape": res["shape"], "model": describe(s.model()), "witness": True})
@@ -107,8 +107,26 @@ def _short(dec):
     return "".join("T" if d is True else "F" if d is False else "[%s]" % (d[1],) for d in dec)[:120]
 
 
+def _watchdog(seconds):
+    """last resort against a stuck native call: the worker process exits (the parent then reports a
+    harness error for that shape -> inconclusive)"""
+    import threading
+    t = threading.Timer(seconds, lambda: os._exit(99))
+    t.daemon = True
+    t.start()
+    return t
+
+
 def _worker(modname, kind, arg, tier):
     os.environ.setdefault("PYTHONHASHSEED", "0")
+    wd = _watchdog(float(os.environ.get("VERIF_SHAPE_WALL_S", "1500" if tier == "quick" else "5400")))
+    try:
+        return _worker_inner(modname, kind, arg, tier)
+    finally:
+        wd.cancel()
+
+
+def _worker_inner(modname, kind, arg, tier):
     sys.path.insert(0, VERIF)
     t0 = time.time()
     try:
@@ -175,8 +193,13 @@ def run_check(modname, tier, seed):
     results = []
     with cf.ProcessPoolExecutor(max_workers=min(nproc, max(1, len(jobs))), mp_context=ctx) as ex:
         futs = [ex.submit(_worker, modname, kind, arg, tier) for kind, arg in jobs]
-        for f in futs:
-            results.append(f.result())
+        for (kind, arg), f in zip(jobs, futs):
+            try:
+                results.append(f.result())
+            except Exception as e:   # a worker died (watchdog / out of memory): never reported as success
+                r = new_result(arg)
+                r["error"] = "worker process failed: %s: %s" % (type(e).__name__, e)
+                results.append(r)
 
     known = load_known(prop)
     inconclusive = []
